@@ -650,7 +650,10 @@ def write_evidence(prop, tier, seed, coverage, wall, violations, assumptions=Non
         "violations": int(violations),
     }
     # tools/selftest_mutants.py points this elsewhere so runs against mutated scratch trees do not replace real evidence
-    d = os.environ.get("VERIF_EVIDENCE_DIR", os.path.join(VERIF, "evidence"))
+    d = os.environ.get("VERIF_EVIDENCE_DIR")
+    if not d:
+        # a run against another tree (QENTEM_REPO: scratch worktrees of the self-test) never replaces the real evidence
+        d = os.path.join(VERIF, "evidence") if os.path.realpath(REPO) == "/repo" else os.path.join(BUILD, "evidence-other-tree")
     os.makedirs(d, exist_ok=True)
     tmp = os.path.join(d, prop + ".json.tmp")
     with open(tmp, "w") as f:
